@@ -164,6 +164,7 @@ func ruleC18(c *Ctx, r *Report) {
 		r.OK("C18-R1", an.RedactClosure.Name()+":decision-table", c.Pos(an.RedactClosure.Pos()), fmt.Sprintf("all %d presence assignments agree with the specification predicate (%d accepted, %d rejected, %d don't-care; %d abstract paths)", total, nAcc, nRej, nDC, nPaths))
 	}
 	cobraSilenceRule(c, r, "C18-R3")
+	flagSetsAttachedRule(c, r, "C18-R3")
 	if !have["C18-R2"] {
 		r.OK("C18-R2", an.RedactClosure.Name()+":no-side-effect-before-flag-rejection", c.Pos(an.RedactClosure.Pos()), "every flag-rejected assignment exits before any file creation / key generation / network call")
 	}
